@@ -10,186 +10,236 @@ set_option linter.unusedVariables false
 namespace Ferrous.Rdb
 open Ferrous
 
-/-- `x` is not a fuel error and, when it succeeds, leaves at most `n` bytes. -/
-def Good {α : Type} (x : Res α) (n : Nat) : Prop :=
-  (∀ al, x ≠ .err .fuel al) ∧ (∀ a r al, x = .ok a r al → r.length ≤ n)
+/-- `x` (a reader run inside a file of `N` bytes) is not a fuel error; when it succeeds it leaves at most
+    `n` bytes; every successful allocation is at most `N`; and when it fails in `read_string`, the bytes
+    that were still available are at most `N`. -/
+def Good {α : Type} (N : Nat) (x : Res α) (n : Nat) : Prop :=
+  (∀ al, x ≠ .err .fuel al) ∧ (∀ a r al, x = .ok a r al → r.length ≤ n) ∧
+  (∀ a ∈ x.allocs, a ≤ N) ∧ (∀ w h al, x = .err (.shortString w h) al → h ≤ N)
 
-theorem Good.mono {α : Type} {x : Res α} {n m : Nat} (h : Good x n) (hnm : n ≤ m) : Good x m :=
-  ⟨h.1, fun a r al hx => Nat.le_trans (h.2 a r al hx) hnm⟩
+theorem Good.mono {α : Type} {N : Nat} {x : Res α} {n m : Nat} (h : Good N x n) (hnm : n ≤ m) : Good N x m :=
+  ⟨h.1, fun a r al hx => Nat.le_trans (h.2.1 a r al hx) hnm, h.2.2.1, h.2.2.2⟩
 
-theorem Good.pre {α : Type} {x : Res α} {n : Nat} (h : Good x n) (al : List Nat) : Good (x.pre al) n := by
+theorem Good.pre {α : Type} {N : Nat} {x : Res α} {n : Nat} (h : Good N x n) (al : List Nat)
+    (hal : ∀ a ∈ al, a ≤ N) : Good N (x.pre al) n := by
   cases x with
   | ok a r al' =>
-    refine ⟨fun _ hh => by simp at hh, ?_⟩
-    intro a' r' al'' hh
-    simp at hh
-    rw [← hh.2.1]
-    exact h.2 a r al' rfl
+    refine ⟨fun _ hh => by simp at hh, ?_, ?_, fun _ _ _ hh => by simp at hh⟩
+    · intro a' r' al'' hh
+      simp at hh
+      rw [← hh.2.1]
+      exact h.2.1 a r al' rfl
+    · intro x hx
+      simp [Res.allocs] at hx
+      cases hx with
+      | inl hx => exact hal x hx
+      | inr hx => exact h.2.2.1 x (by simp [Res.allocs, hx])
   | err e al' =>
-    refine ⟨?_, fun _ _ _ hh => by simp at hh⟩
-    intro al'' hh
-    simp at hh
-    exact h.1 al' (by rw [hh.1])
+    refine ⟨?_, fun _ _ _ hh => by simp at hh, ?_, ?_⟩
+    · intro al'' hh
+      simp at hh
+      exact h.1 al' (by rw [hh.1])
+    · intro x hx
+      simp [Res.allocs] at hx
+      cases hx with
+      | inl hx => exact hal x hx
+      | inr hx => exact h.2.2.1 x (by simp [Res.allocs, hx])
+    · intro w hv al'' hh
+      simp at hh
+      exact h.2.2.2 w hv al' (by rw [hh.1])
 
-theorem Good.bind {α β : Type} {x : Res α} {f : α → Bytes → Res β} {n : Nat} (hx : Good x n)
-    (hf : ∀ a r, r.length ≤ n → Good (f a r) n) : Good (x.bind f) n := by
+theorem Good.bind {α β : Type} {N : Nat} {x : Res α} {f : α → Bytes → Res β} {n : Nat} (hx : Good N x n)
+    (hf : ∀ a r, r.length ≤ n → Good N (f a r) n) : Good N (x.bind f) n := by
   cases x with
-  | ok a r al => exact (hf a r (hx.2 a r al rfl)).pre al
+  | ok a r al => exact (hf a r (hx.2.1 a r al rfl)).pre al (fun y hy => hx.2.2.1 y (by simp [Res.allocs, hy]))
   | err e al =>
-    refine ⟨?_, fun _ _ _ hh => by simp at hh⟩
-    intro al' hh
-    simp at hh
-    exact hx.1 al (by rw [hh.1])
+    refine ⟨?_, fun _ _ _ hh => by simp at hh, ?_, ?_⟩
+    · intro al' hh
+      simp at hh
+      exact hx.1 al (by rw [hh.1])
+    · intro y hy
+      exact hx.2.2.1 y (by simpa [Res.allocs] using hy)
+    · intro w hv al' hh
+      simp at hh
+      exact hx.2.2.2 w hv al (by rw [hh.1])
 
-theorem Good.map {α β : Type} {x : Res α} {g : α → β} {n : Nat} (hx : Good x n) : Good (x.map g) n := by
+theorem Good.map {α β : Type} {N : Nat} {x : Res α} {g : α → β} {n : Nat} (hx : Good N x n) : Good N (x.map g) n := by
   cases x with
   | ok a r al =>
-    refine ⟨fun _ hh => by simp at hh, ?_⟩
-    intro a' r' al' hh
-    simp at hh
-    rw [← hh.2.1]
-    exact hx.2 a r al rfl
+    refine ⟨fun _ hh => by simp at hh, ?_, ?_, fun _ _ _ hh => by simp at hh⟩
+    · intro a' r' al' hh
+      simp at hh
+      rw [← hh.2.1]
+      exact hx.2.1 a r al rfl
+    · intro y hy
+      exact hx.2.2.1 y (by simpa [Res.allocs] using hy)
   | err e al =>
-    refine ⟨?_, fun _ _ _ hh => by simp at hh⟩
-    intro al' hh
-    simp at hh
-    exact hx.1 al (by rw [hh.1])
+    refine ⟨?_, fun _ _ _ hh => by simp at hh, ?_, ?_⟩
+    · intro al' hh
+      simp at hh
+      exact hx.1 al (by rw [hh.1])
+    · intro y hy
+      exact hx.2.2.1 y (by simpa [Res.allocs] using hy)
+    · intro w hv al' hh
+      simp at hh
+      exact hx.2.2.2 w hv al (by rw [hh.1])
 
-theorem good_ok {α : Type} (a : α) (r : Bytes) (al : List Nat) (n : Nat) (h : r.length ≤ n) : Good (Res.ok a r al) n :=
-  ⟨fun _ hh => by simp at hh, fun a' r' al' hh => by simp at hh; rw [← hh.2.1]; exact h⟩
+/-- a success that allocated nothing -/
+theorem good_ok {α : Type} {N : Nat} (a : α) (r : Bytes) (n : Nat) (h : r.length ≤ n) : Good N (Res.ok a r []) n :=
+  ⟨fun _ hh => by simp at hh, fun a' r' al' hh => by simp at hh; rw [← hh.2.1]; exact h,
+   fun y hy => by simp [Res.allocs] at hy, fun _ _ _ hh => by simp at hh⟩
 
-theorem good_err {α : Type} (e : Err) (al : List Nat) (n : Nat) (h : e ≠ .fuel) : Good (Res.err e al : Res α) n :=
-  ⟨fun al' hh => by simp at hh; exact h hh.1, fun _ _ _ hh => by simp at hh⟩
+/-- a success with one allocation -/
+theorem good_ok1 {α : Type} {N : Nat} (a : α) (r : Bytes) (k n : Nat) (h : r.length ≤ n) (hk : k ≤ N) :
+    Good N (Res.ok a r [k]) n :=
+  ⟨fun _ hh => by simp at hh, fun a' r' al' hh => by simp at hh; rw [← hh.2.1]; exact h,
+   fun y hy => by simp [Res.allocs] at hy; rw [hy]; exact hk, fun _ _ _ hh => by simp at hh⟩
+
+/-- a failure other than `fuel` / `shortString` -/
+theorem good_err {α : Type} {N : Nat} (e : Err) (n : Nat) (h : e ≠ .fuel) (hs : ∀ w v, e ≠ .shortString w v) :
+    Good N (Res.err e [] : Res α) n :=
+  ⟨fun al' hh => by simp at hh; exact h hh.1, fun _ _ _ hh => by simp at hh,
+   fun y hy => by simp [Res.allocs] at hy, fun w v al hh => by simp at hh; exact absurd hh.1 (hs w v)⟩
+
+theorem good_short {α : Type} {N : Nat} (w v n : Nat) (hv : v ≤ N) : Good N (Res.err (.shortString w v) [] : Res α) n :=
+  ⟨fun al' hh => by simp at hh, fun _ _ _ hh => by simp at hh,
+   fun y hy => by simp [Res.allocs] at hy, fun w' v' al hh => by simp at hh; rw [← hh.1.2]; exact hv⟩
 
 /-- an engine call that cannot answer `fuel` -/
-def NoFuel {α : Type} (x : Except Err α) : Prop := ∀ e, x = .error e → e ≠ .fuel
+def NoFuel {α : Type} (x : Except Err α) : Prop := ∀ e, x = .error e → e ≠ .fuel ∧ ∀ w v, e ≠ .shortString w v
 
-theorem good_lift {α : Type} (x : Except Err α) (r : Bytes) (n : Nat) (hx : NoFuel x) (h : r.length ≤ n) :
-    Good (lift x r) n := by
+theorem good_lift {α : Type} {N : Nat} (x : Except Err α) (r : Bytes) (n : Nat) (hx : NoFuel x) (h : r.length ≤ n) :
+    Good N (lift x r) n := by
   cases x with
-  | ok a => exact good_ok a r [] n h
-  | error e => exact good_err e [] n (hx e rfl)
+  | ok a => exact good_ok a r n h
+  | error e => exact good_err e n (hx e rfl).1 (hx e rfl).2
 
 /-! ### primitives: each consumes what it reads -/
 
-theorem readByte_good (bs : Bytes) : Good (readByte bs) (bs.length - 1) := by
+theorem readByte_good {N : Nat} (bs : Bytes) : Good N (readByte bs) (bs.length - 1) := by
   cases bs with
-  | nil => exact good_err _ _ _ (by simp)
-  | cons b r => exact good_ok b r [] _ (by simp)
+  | nil => exact good_err _ _ (by simp) (by simp)
+  | cons b r => exact good_ok b r _ (by simp)
 
 theorem readExact_length {n : Nat} {bs h r : Bytes} (hh : readExact n bs = some (h, r)) : r.length + n = bs.length := by
   obtain ⟨h1, h2⟩ := readExact_some hh
   rw [h1, List.length_append, h2]; omega
 
-theorem readFixed_good (k : Nat) (bs : Bytes) : Good (readFixed k bs) (bs.length - k) := by
+theorem readFixed_good {N : Nat} (k : Nat) (bs : Bytes) : Good N (readFixed k bs) (bs.length - k) := by
   unfold readFixed
   cases hh : readExact k bs with
-  | none => exact good_err _ _ _ (by simp)
+  | none => exact good_err _ _ (by simp) (by simp)
   | some p =>
     obtain ⟨h, r⟩ := p
     have := readExact_length hh
-    exact good_ok h r [] _ (by omega)
+    exact good_ok h r _ (by omega)
 
-theorem readLen_good (bs : Bytes) : Good (readLen bs) (bs.length - 1) := by
+theorem readLen_good {N : Nat} (bs : Bytes) : Good N (readLen bs) (bs.length - 1) := by
   cases bs with
-  | nil => exact good_err _ _ _ (by simp)
+  | nil => exact good_err _ _ (by simp) (by simp)
   | cons b r =>
     simp only [readLen, List.length_cons, Nat.add_sub_cancel]
     by_cases h0 : b / 64 = 0
     · simp only [h0, if_true]
-      exact good_ok _ _ _ _ (Nat.le_refl _)
+      exact good_ok _ _ _ (Nat.le_refl _)
     · by_cases h1 : b / 64 = 1
       · simp only [h1, if_true, if_false, Nat.reduceEqDiff]
         cases r with
-        | nil => exact good_err _ _ _ (by simp)
-        | cons c r' => exact good_ok _ _ _ _ (by simp)
+        | nil => exact good_err _ _ (by simp) (by simp)
+        | cons c r' => exact good_ok _ _ _ (by simp)
       · by_cases h2 : b / 64 = 2
         · simp only [h2, if_true, if_false, Nat.reduceEqDiff]
           cases hh : readExact 4 r with
-          | none => exact good_err _ _ _ (by simp)
+          | none => exact good_err _ _ (by simp) (by simp)
           | some p =>
             obtain ⟨h, r'⟩ := p
             have := readExact_length hh
-            exact good_ok _ _ _ _ (by omega)
+            exact good_ok _ _ _ (by omega)
         · simp only [h0, h1, h2, if_false]
-          exact good_err _ _ _ (by simp)
+          exact good_err _ _ (by simp) (by simp)
 
-theorem readString_good (bs : Bytes) : Good (readString bs) (bs.length - 1) := by
+theorem readString_good {N : Nat} (bs : Bytes) (hN : bs.length ≤ N) : Good N (readString bs) (bs.length - 1) := by
   unfold readString
   apply Good.bind (readLen_good bs)
   intro n r hr
   cases hh : readExact n r with
-  | none => exact good_err _ _ _ (by simp)
+  | none => exact good_short _ _ _ (by omega)
   | some p =>
     obtain ⟨h, r'⟩ := p
     have := readExact_length hh
-    exact good_ok _ _ _ _ (by omega)
+    exact good_ok1 _ _ _ _ (by omega) (by omega)
 
-theorem readStrings_good : ∀ (k : Nat) (bs : Bytes), Good (readStrings k bs) bs.length
-  | 0, bs => good_ok _ _ _ _ (Nat.le_refl _)
-  | k+1, bs => by
+theorem readStrings_good {N : Nat} : ∀ (k : Nat) (bs : Bytes), bs.length ≤ N → Good N (readStrings k bs) bs.length
+  | 0, bs, _ => good_ok _ _ _ (Nat.le_refl _)
+  | k+1, bs, hN => by
     unfold readStrings
-    apply Good.bind ((readString_good bs).mono (by omega))
+    apply Good.bind ((readString_good bs hN).mono (by omega))
     intro s r hr
-    exact Good.map ((readStrings_good k r).mono hr)
+    exact Good.map ((readStrings_good k r (by omega)).mono hr)
 
-theorem readPairs_good : ∀ (k : Nat) (bs : Bytes), Good (readPairs k bs) bs.length
-  | 0, bs => good_ok _ _ _ _ (Nat.le_refl _)
-  | k+1, bs => by
+theorem readPairs_good {N : Nat} : ∀ (k : Nat) (bs : Bytes), bs.length ≤ N → Good N (readPairs k bs) bs.length
+  | 0, bs, _ => good_ok _ _ _ (Nat.le_refl _)
+  | k+1, bs, hN => by
     unfold readPairs
-    apply Good.bind ((readString_good bs).mono (by omega))
+    apply Good.bind ((readString_good bs hN).mono (by omega))
     intro f r hr
-    apply Good.bind ((readString_good r).mono (by omega))
+    apply Good.bind ((readString_good r (by omega)).mono (by omega))
     intro v r' hr'
-    exact Good.map ((readPairs_good k r').mono hr')
+    exact Good.map ((readPairs_good k r' (by omega)).mono hr')
 
-theorem readZPairs_good : ∀ (k : Nat) (bs : Bytes), Good (readZPairs k bs) bs.length
-  | 0, bs => good_ok _ _ _ _ (Nat.le_refl _)
-  | k+1, bs => by
+theorem readZPairs_good {N : Nat} : ∀ (k : Nat) (bs : Bytes), bs.length ≤ N → Good N (readZPairs k bs) bs.length
+  | 0, bs, _ => good_ok _ _ _ (Nat.le_refl _)
+  | k+1, bs, hN => by
     unfold readZPairs
-    apply Good.bind ((readString_good bs).mono (by omega))
+    apply Good.bind ((readString_good bs hN).mono (by omega))
     intro m r hr
     apply Good.bind ((readFixed_good 8 r).mono (by omega))
     intro sc r' hr'
-    exact Good.map ((readZPairs_good k r').mono hr')
+    exact Good.map ((readZPairs_good k r' (by omega)).mono hr')
 
-/-! ### engine calls never answer `fuel` -/
+/-! ### engine calls never answer `fuel` (nor `shortString`) -/
+
+theorem nofuel_of {α : Type} (x : Except Err α) (h : ∀ e, x = .error e → e = .invalidDb ∨ e = .wrongType) : NoFuel x := by
+  intro e he
+  cases h e he with
+  | inl h => subst h; exact ⟨by simp, by simp⟩
+  | inr h => subst h; exact ⟨by simp, by simp⟩
 
 theorem setValue_nofuel (valid : Bool) (db : Db) (e : Entry) : NoFuel (setValue valid db e) := by
-  intro e' h; unfold setValue at h; split at h <;> simp at h; rw [← h]; simp
+  apply nofuel_of; intro e' h; unfold setValue at h; split at h <;> simp at h; exact Or.inl h.symm
 
 theorem rpush_nofuel (valid : Bool) (db : Db) (k x : Bytes) : NoFuel (rpush valid db k x) := by
-  intro e' h; unfold rpush at h
+  apply nofuel_of; intro e' h; unfold rpush at h
   split at h
-  · simp at h; rw [← h]; simp
-  · split at h <;> simp at h; rw [← h]; simp
+  · simp at h; exact Or.inl h.symm
+  · split at h <;> simp at h; exact Or.inr h.symm
 
 theorem sadd_nofuel (valid : Bool) (db : Db) (k : Bytes) (ms : List Bytes) : NoFuel (sadd valid db k ms) := by
-  intro e' h; unfold sadd at h
+  apply nofuel_of; intro e' h; unfold sadd at h
   split at h
-  · simp at h; rw [← h]; simp
-  · split at h <;> simp at h; rw [← h]; simp
+  · simp at h; exact Or.inl h.symm
+  · split at h <;> simp at h; exact Or.inr h.symm
 
 theorem hset_nofuel (valid : Bool) (db : Db) (k : Bytes) (fvs : List (Bytes × Bytes)) : NoFuel (hset valid db k fvs) := by
-  intro e' h; unfold hset at h
+  apply nofuel_of; intro e' h; unfold hset at h
   split at h
-  · simp at h; rw [← h]; simp
-  · split at h <;> simp at h; rw [← h]; simp
+  · simp at h; exact Or.inl h.symm
+  · split at h <;> simp at h; exact Or.inr h.symm
 
 theorem zadd_nofuel (valid : Bool) (db : Db) (k m : Bytes) (sc : Nat) : NoFuel (zadd valid db k m sc) := by
-  intro e' h; unfold zadd at h
+  apply nofuel_of; intro e' h; unfold zadd at h
   split at h
-  · simp at h; rw [← h]; simp
-  · split at h <;> simp at h; rw [← h]; simp
+  · simp at h; exact Or.inl h.symm
+  · split at h <;> simp at h; exact Or.inr h.symm
 
 theorem expireOpt_nofuel (valid : Bool) (db : Db) (k : Bytes) (dl : Option Nat) : NoFuel (expireOpt valid db k dl) := by
-  intro e' h
+  apply nofuel_of; intro e' h
   cases dl with
   | none => simp [expireOpt] at h
   | some d =>
     simp only [expireOpt, expire] at h
     split at h
-    · simp at h; rw [← h]; simp
+    · simp at h; exact Or.inl h.symm
     · split at h <;> simp at h
 
 theorem nofuel_ok {α : Type} (a : α) : NoFuel (.ok a : Except Err α) := by
@@ -202,7 +252,7 @@ theorem nofuel_ite {α : Type} (c : Prop) [Decidable c] (x y : Except Err α) (h
   · exact hy
 
 theorem nofuel_invalid {α : Type} : NoFuel (.error .invalidDb : Except Err α) := by
-  intro e h; cases h; simp
+  apply nofuel_of; intro e h; cases h; exact Or.inl rfl
 
 /-! ### the stream loop and `read_key_value_with_type` -/
 
@@ -211,9 +261,9 @@ macro "rd " t:term : tactic => `(tactic| (apply Good.bind (Good.mono $t (by omeg
 /-- one engine call in a reader chain -/
 macro "eng " t:term : tactic => `(tactic| (apply Good.bind (good_lift _ _ _ $t (by omega)); intro _ _ _))
 
-theorem streamLoop_good (valid : Bool) (k : Bytes) (remaining : Nat) :
-    ∀ (fuel idx : Nat) (db : Db) (bs : Bytes), bs.length < fuel →
-      Good (streamLoop valid k remaining fuel idx db bs) bs.length := by
+theorem streamLoop_good {N : Nat} (valid : Bool) (k : Bytes) (remaining : Nat) :
+    ∀ (fuel idx : Nat) (db : Db) (bs : Bytes), bs.length < fuel → bs.length ≤ N →
+      Good N (streamLoop valid k remaining fuel idx db bs) bs.length := by
   intro fuel
   induction fuel with
   | zero => intro idx db bs h; omega
